@@ -116,7 +116,7 @@ theorem final_values (hst : (lastState (runLoads H o (a :: as) {}) {}).st = .com
     (lastState (runLoads H o (a :: as) {}) {}).future = [] ∧
     ∀ r, lookupReg r (lastState (runLoads H o (a :: as) {}) {}).values =
       lastLogged r (deliverable (spanLines H a.clock)) := by
-  obtain ⟨hp, hg⟩ := runLoads_pending H o (a :: as) {} (by intro h; simp at h)
+  obtain ⟨hp, hg, _⟩ := runLoads_pending H o (a :: as) {} (by intro h; simp at h)
   have hfut := hg hst
   refine ⟨hfut, fun r => ?_⟩
   have hall := complete_all_delivered H o hfix hwf a as hmono (Or.inr hst)
@@ -136,13 +136,76 @@ theorem junk_lines_skipped (hall : ∀ b ∈ a :: as, b.limit = none ∧ b.upcom
     (hi : i < (a :: as).length) :
     deliveredBy (runLoads (H.map stripLines) o (a :: as) {}) (i + 1) =
       deliveredBy (runLoads H o (a :: as) {}) (i + 1) := by
-  obtain ⟨b, hb⟩ : ∃ b, (a :: as)[i]? = some b := ⟨(a :: as)[i], by simp [hi]⟩
+  obtain ⟨b, hb⟩ : ∃ b, (a :: as)[i]? = some b := ⟨(a :: as)[i], by simp⟩
   obtain ⟨hl, hu⟩ := hall b (List.mem_of_getElem? hb)
   rw [replay_on_time H o hfix hwf a as hmono i b hb hl hu,
     replay_on_time (H.map stripLines) o hfix hwf.strip a as hmono i b hb hl hu,
     spanLines_strip a.clock H hwf.first_ok, deliverable_strip]
 
 end
+
+/-- **Completion is reached.**  Let the schedule end with two calls `b1`, `b2` without
+`limit`/`upcoming` whose clock has reached the last timestamp of the history (the clock of the first
+call of the schedule fixes the start file).  Then the replay is COMPLETE after `b2` (and by
+`complete_all_delivered` / `final_values` everything was delivered and the register map is final). -/
+theorem replay_completes (H : History) (o : Opts) (hfix : o.fix = .new) (hwf : WF H)
+    (front : List LoadArgs) (b1 b2 : LoadArgs) (hmono : ClockMono (front ++ [b1, b2]))
+    (h1 : b1.limit = none ∧ b1.upcoming = none) (h2 : b2.limit = none ∧ b2.upcoming = none)
+    (hlast : ∀ t ∈ tsOf (spanLines H ((front ++ [b1]).head (by simp)).clock), t ≤ b1.clock) :
+    (lastState (runLoads H o (front ++ [b1, b2]) {}) {}).st = .complete := by
+  -- the schedule up to and including b1, as `a :: as`
+  obtain ⟨a, as, hsched⟩ : ∃ a as, front ++ [b1] = a :: as := by
+    cases front with
+    | nil => exact ⟨b1, [], rfl⟩
+    | cons x xs => exact ⟨x, xs ++ [b1], rfl⟩
+  have hhead : ((front ++ [b1]).head (by simp)).clock = a.clock := by simp [hsched]
+  rw [hhead] at hlast
+  have hsplit : front ++ [b1, b2] = (front ++ [b1]) ++ [b2] := by simp
+  have hmono1 : ClockMono (a :: as) := by
+    rw [← hsched]
+    unfold ClockMono at hmono ⊢
+    rw [hsplit] at hmono
+    exact (List.pairwise_append.mp hmono).1
+  have hb12 : b1.clock ≤ b2.clock := by
+    unfold ClockMono at hmono
+    rw [hsplit] at hmono
+    exact (List.pairwise_append.mp hmono).2.2 b1 (by simp) b2 (by simp)
+  have htrace := run_trace H o hfix hwf a as hmono1
+  obtain ⟨_, hnohang⟩ := trace_length htrace
+  rw [← hsched] at htrace hnohang
+  obtain ⟨c, r, hc, hdel, hpos, hset⟩ := trace_last htrace {}
+  -- after b1 everything is consumed and the loader knows it
+  have hs1 : r = [] ∧ ((lastState (runLoads H o (front ++ [b1]) {}) {}).st = .exhausted ∨
+      (lastState (runLoads H o (front ++ [b1]) {}) {}).st = .complete) := by
+    rcases hset h1.1 h1.2 with h | ⟨ts, p, tl, hr, hlt⟩
+    · exact h
+    · exfalso
+      have : ts ∈ tsOf (spanLines H a.clock) := by
+        rw [hc, hr, tsOf_append, tsOf_cons_recd]; simp
+      exact Nat.lt_irrefl _ (Nat.lt_of_lt_of_le (Nat.lt_of_le_of_lt (Nat.le_add_right _ _) hlt) (hlast ts this))
+  have hgen : (lastState (runLoads H o (front ++ [b1]) {}) {}).gen = .noop := by
+    cases hpos with
+    | exhausted _ _ hg => exact hg
+    | inFile later f post need rest cur adv _ _ _ _ _ _ _ hnone hsome =>
+      exfalso
+      cases need with
+      | none => have := (hnone rfl).1; rcases hs1.2 with h | h <;> rw [this] at h <;> simp at h
+      | some tp => have := (hsome tp.1 tp.2 rfl).1; rcases hs1.2 with h | h <;> rw [this] at h <;> simp at h
+  -- whatever is still queued was delivered, hence logged, hence not later than the clock of b2
+  obtain ⟨_, _, hq⟩ := runLoads_pending H o (front ++ [b1]) {} (by intro h; simp at h)
+  have hfut : ∀ e ∈ (lastState (runLoads H o (front ++ [b1]) {}) {}).future, e.1 ≤ b2.clock := by
+    intro e he
+    rcases hq e he with h | h
+    · simp at h
+    · rw [hdel] at h
+      have : e.1 ∈ tsOf (spanLines H a.clock) := by
+        rw [hc, tsOf_append]; exact List.mem_append_left _ (mem_deliverable_ts h)
+      exact Nat.le_trans (hlast _ this) hb12
+  obtain ⟨t, s2, hload, hst2⟩ := load_exhausted_complete H o b2 _ hs1.2 hgen h2.2 hfut
+  rw [hsplit, runLoads_append H o (front ++ [b1]) [b2] {} hnohang]
+  simp only [runLoads, hload]
+  rw [lastState_append_done]
+  exact hst2
 
 /-- **Copies.**  With compressed copies beside (or instead of) the plain files — the same lines under
 names that sort directly after the original — the replay is that of the history without copies, to
@@ -239,6 +302,9 @@ example : delivered (runLoads H0 { la := 5 } sched0 {}) = deliverable (spanLines
     (lastState (runLoads H0 { la := 5 } sched0 {}) {}).st = .complete := by decide +kernel
 
 example : (deliverable (spanLines H0 1005)).length = 7 := by decide +kernel
+
+/-- the hypotheses of `replay_completes` on that schedule (its last two calls are 1050 and 1060) -/
+example : ∀ t ∈ tsOf (spanLines H0 1005), t ≤ 1050 := by decide +kernel
 
 /-- the final register map of that replay -/
 example : (lastState (runLoads H0 { la := 5 } sched0 {}) {}).values
